@@ -51,7 +51,7 @@ def dt_cases(tier):
     quick = tier == 'quick'
     past = c02.formula_set(tier)
     fut = c03.formula_set(tier)
-    step_p, step_f = (12, 25) if quick else (3, 6)
+    step_p, step_f = (12, 25) if quick else (6, 12)
     out = [(f, False, (), None) for f in past[::step_p]] + [(f, True, (), None) for f in fut[::step_f]]
     # with sub-specifications
     px, py = F.PX, F.PY
@@ -131,7 +131,7 @@ def dt_explore(res, mod, f, pastify, subs, top, tier):
                 res.nontrivial += 1
             res.outcomes['as fresh'] += 1
 
-    st = explore.bfs(m, 5 if quick else 7, 400 if quick else 20000, 'none', None, on_state, max_states=60 if quick else 2000)
+    st = explore.bfs(m, 5 if quick else 7, 400 if quick else 20000, 'none', None, on_state, max_states=60 if quick else 400)
     res.formulas += 1
     res.states += st.states
     res.transitions += st.transitions
